@@ -60,6 +60,8 @@ STRENGTHENED = {
     'C36-3': 'missed at first (the component-level unit never runs the handshake paths); a node-level unit was added: initiator stage-2 source, responder stage-1 source and roaming packets from allowed / globally denied / range-denied underlay addresses, then every datagram the node writes and every address it keeps for the peer is judged.',
     'C15-3': 'missed by C15 at first (caught by C17); half of the C15 sessions now run with the routine-local conntrack cache enabled.',
     'C02-3': 'missed at first (needs a P-256 signature whose low-S value has two or more leading zero bytes, about 1 in 32768); two seed certificates with such signatures are now searched for (over certificate names, signatures being deterministic) and presented in low-S and high-S form.',
+    'C15-4': 'missed at first (no endpoint ever rejected anything); sessions where B answers denied packets with a reject were added, the reject must travel end to end (recognised in the wire tap and at the tun), and any data packet an endpoint seals for the relay itself in the honest phase must be addressed to the relay.',
+    'C34-4': 'caught only in one run out of three by the node stress at first; a component-level HostMap stress unit under the race detector was added (peers with several tunnels, relay lookups against add / promote / add-relay / delete), and the node stress keeps re-making the tunnels to the relay.',
     'C47': 'missed at first (short inputs were only presented as len==cap slices); short inputs at the front of a larger stale buffer were added.',
 }
 
